@@ -235,16 +235,20 @@ Record Dom (used : list ProvModel.name) (lvL lvR : list (ProvModel.path * list N
                     ProvModel.o_path ob = [root_name sd; n] /\ g_get k (g_of g sd) = Some cs;
   d_used : forall sd k cs, g_get k (g_of g sd) = Some cs ->
      exists ob n, obj_at w sd k = Some ob /\ ProvModel.o_path ob = [root_name sd; n] /\ name_mem n used = true;
-  d_uniq : Uniq g w
+  d_uniq : Uniq g w;
+  (* conversely: a live user-made object is one of the files the bookkeeping lists, with the contents recorded *)
+  d_conv : forall (sd : bool) k cs ob, g_get k (g_of g sd) = Some cs -> obj_at w sd k = Some ob -> ProvModel.o_exists ob = true ->
+     exists n, ProvModel.o_path ob = [root_name sd; n] /\ live_get [n] (if sd then lvR else lvL) = Some cs
 }.
 
 Lemma Dom_frame used lvL lvR g w w' : OwnFrame g w w' -> Dom used lvL lvR g w -> Dom used lvL lvR g w'.
 Proof.
-  intros O [A B C]. constructor.
+  intros O [A B C D0]. constructor.
   - intros sd rel cs H. destruct (A sd rel cs H) as (n & k & ob & X1 & X2 & X3 & X4 & X5).
     exists n, k, ob. rewrite (O sd k cs X5). auto.
   - intros sd k cs H. destruct (B sd k cs H) as (ob & n & X1 & X2 & X3). exists ob, n. rewrite (O sd k cs H). auto.
   - apply (Uniq_frame g w w' O C).
+  - intros sd k cs ob Hg Hob Hl. rewrite (O sd k cs Hg) in Hob. apply (D0 sd k cs ob Hg Hob Hl).
 Qed.
 
 (* every live object's leaf name has been used by a user *)
@@ -404,6 +408,20 @@ Proof.
       * exfalso. subst ob0. rewrite Hlo, B3 in Hleaf. unfold leaf in Hleaf. simpl in Hleaf. subst n1. congruence.
       * exfalso. subst ob1. rewrite Hlo, A3 in Hleaf. unfold leaf in Hleaf. simpl in Hleaf. subst n0. congruence.
       * apply (d_uniq _ _ _ _ _ D sd0 k0 cs0 sd1 k1 cs1 ob0 ob1 A1 B1 A2 B2 Hleaf).
+    + intros sd0 k0 cs0 ob0 Hg0 Ho0 Hl0. destruct (Bool.bool_dec sd0 sd) as [->|Hne].
+      * destruct (Nat.eq_dec k0 kt) as [->|Hnk].
+        -- assert (ob0 = o) by congruence. subst ob0. assert (cs0 = [d]) by congruence. subst cs0.
+           exists n. split; [reflexivity|]. destruct sd; cbn [live_get]; rewrite ProvWf.path_eqb_refl; reflexivity.
+        -- rewrite (Hgt k0 Hnk) in Hg0. rewrite (Hobj k0 Hnk) in Ho0.
+           destruct (d_conv _ _ _ _ _ D sd k0 cs0 ob0 Hg0 Ho0 Hl0) as (n0 & X1 & X2).
+           destruct (d_used _ _ _ _ _ D sd k0 cs0 Hg0) as (obz & nz & Z1 & Z2 & Z3). assert (obz = ob0) by congruence. subst obz.
+           assert (nz = n0) by congruence. subst nz.
+           assert (Hnn: ProvModel.path_eqb [n0] [n] = false).
+           { apply ProvWf.path_eqb_false. intros X. injection X as X. subst n0. congruence. }
+           exists n0. split; [exact X1|]. destruct sd; cbn [live_get]; rewrite Hnn; exact X2.
+      * rewrite (other_side _ _ Hne) in *. rewrite Hgo in Hg0. rewrite Hobjo in Ho0.
+        destruct (d_conv _ _ _ _ _ D (negb sd) k0 cs0 ob0 Hg0 Ho0 Hl0) as (n0 & X1 & X2).
+        exists n0. split; [exact X1|]. destruct sd; exact X2.
 Qed.
 
 (* ------------------------------------------------------------------ user: write to / delete an own file *)
@@ -541,6 +559,19 @@ Proof.
       - rewrite (other_side _ _ Hne) in *. exists csx, obx. rewrite <- Hgo, <- Hobjo. auto. }
     destruct (Hold _ _ _ _ Hg0 Ho0) as (c0 & z0 & X1 & X2 & X3). destruct (Hold _ _ _ _ Hg1 Ho1) as (c1 & z1 & Y1 & Y2 & Y3).
     apply (d_uniq _ _ _ _ _ D sd0 k0 c0 sd1 k1 c1 z0 z1 X1 Y1 X2 Y2). rewrite X3, Y3. exact Hleaf.
+  - intros sd0 k0 cs0 ob0 Hg0 Ho0 Hl0. destruct (Bool.bool_dec sd0 sd) as [->|Hne].
+    + destruct (Nat.eq_dec k0 k) as [->|Hnk].
+      * assert (ob0 = ob') by congruence. subst ob0. assert (cs0 = d :: cs) by congruence. subst cs0.
+        exists n. split; [exact Hp|]. destruct sd; cbn [live_get]; rewrite ProvWf.path_eqb_refl; reflexivity.
+      * rewrite (Hgt k0 Hnk) in Hg0. rewrite (Hobj k0 Hnk) in Ho0.
+        destruct (d_conv _ _ _ _ _ D sd k0 cs0 ob0 Hg0 Ho0 Hl0) as (n0 & X1 & X2).
+        assert (Hnn: ProvModel.path_eqb [n0] [n] = false).
+        { apply ProvWf.path_eqb_false. intros X. injection X as X. subst n0.
+          destruct (d_uniq _ _ _ _ _ D sd k0 cs0 sd k cs ob0 ob Hg0 Hg Ho0 Hob) as (_ & Hk); [rewrite X1, Hp; reflexivity|]. contradiction. }
+        exists n0. split; [exact X1|]. destruct sd; cbn [live_get]; rewrite Hnn, (live_get_del_other _ _ _ Hnn); exact X2.
+    + rewrite (other_side _ _ Hne) in *. rewrite Hgo in Hg0. rewrite Hobjo in Ho0.
+      destruct (d_conv _ _ _ _ _ D (negb sd) k0 cs0 ob0 Hg0 Ho0 Hl0) as (n0 & X1 & X2).
+      exists n0. split; [exact X1|]. destruct sd; exact X2.
 Qed.
 
 Lemma user_delete_pres used lvL lvR g w (sd : bool) rel cs :
@@ -603,6 +634,18 @@ Proof.
       - rewrite (other_side _ _ Hne) in *. exists csx, obx. rewrite <- Hgo, <- Hobjo. auto. }
     destruct (Hold _ _ _ _ Hg0 Ho0) as (c0 & z0 & X1 & X2 & X3). destruct (Hold _ _ _ _ Hg1 Ho1) as (c1 & z1 & Y1 & Y2 & Y3).
     apply (d_uniq _ _ _ _ _ D sd0 k0 c0 sd1 k1 c1 z0 z1 X1 Y1 X2 Y2). rewrite X3, Y3. exact Hleaf.
+  - intros sd0 k0 cs0 ob0 Hg0 Ho0 Hl0. destruct (Bool.bool_dec sd0 sd) as [->|Hne].
+    + destruct (Nat.eq_dec k0 k) as [->|Hnk].
+      * exfalso. assert (ob0 = ob') by congruence. subst ob0. unfold ob' in Hl0. cbn in Hl0. discriminate.
+      * rewrite (Hgt k0 Hnk) in Hg0. rewrite (Hobj k0 Hnk) in Ho0.
+        destruct (d_conv _ _ _ _ _ D sd k0 cs0 ob0 Hg0 Ho0 Hl0) as (n0 & X1 & X2).
+        assert (Hnn: ProvModel.path_eqb [n0] [n] = false).
+        { apply ProvWf.path_eqb_false. intros X. injection X as X. subst n0.
+          destruct (d_uniq _ _ _ _ _ D sd k0 cs0 sd k cs ob0 ob Hg0 Hg Ho0 Hob) as (_ & Hk); [rewrite X1, Hp; reflexivity|]. contradiction. }
+        exists n0. split; [exact X1|]. destruct sd; rewrite (live_get_del_other _ _ _ Hnn); exact X2.
+    + rewrite (other_side _ _ Hne) in *. rewrite Hgo in Hg0. rewrite Hobjo in Ho0.
+      destruct (d_conv _ _ _ _ _ D (negb sd) k0 cs0 ob0 Hg0 Ho0 Hl0) as (n0 & X1 & X2).
+      exists n0. split; [exact X1|]. destruct sd; exact X2.
 Qed.
 
 (* ------------------------------------------------------------------ runs *)
@@ -620,8 +663,9 @@ Proof. intros e sd. unfold getx, world_init. cbn [w_x]. destruct e as [|[|e]]; d
 
 Lemma Dom_init c t0 lg0 : Dom [] [] [] g0 (world_init c t0 lg0).
 Proof.
-  constructor; [intros sd rel cs H; destruct sd; discriminate|intros sd k cs H; destruct sd; discriminate|].
-  intros sd k cs sd' k' cs' ob ob' H. destruct sd; discriminate.
+  constructor; [intros sd rel cs H; destruct sd; discriminate|intros sd k cs H; destruct sd; discriminate| |].
+  - intros sd k cs sd' k' cs' ob ob' H. destruct sd; discriminate.
+  - intros sd k cs ob H. destruct sd; discriminate.
 Qed.
 
 Theorem run_inv : forall acts used lvL lvR g w w',
